@@ -9,7 +9,13 @@ import SqlLineage.IO.Graph
 import SqlLineage.IO.Sql
 import SqlLineage.IO.PathSec
 import SqlLineage.IO.Qualify
+import SqlLineage.IO.Shape
+import SqlLineage.IO.Export
+import SqlLineage.IO.Rename
 import SqlLineage.IO.Names
+import SqlLineage.IO.Split
+import SqlLineage.IO.Provider
+import SqlLineage.IO.Chain
 
 open Lean
 
@@ -23,17 +29,32 @@ def handlers : List (String × (Json → Except String Json)) := [
   ("sql", SqlLineage.IO.Sql.handleSql),
   ("render", SqlLineage.IO.Sql.handleRender),
   ("dispatch", SqlLineage.IO.Sql.handleDispatch),
+  ("shape", SqlLineage.IO.Shape.handleShape),
   ("path", SqlLineage.IO.PathSec.handleOne),
   ("pathbatch", SqlLineage.IO.PathSec.handleBatch),
   ("pathlib", SqlLineage.IO.PathSec.handlePathlib),
   ("sqlfx", SqlLineage.IO.Qualify.handleSqlFixed),
   ("qualify", SqlLineage.IO.Qualify.handleQualify),
+  ("exportsql", SqlLineage.IO.Export.handleExportSql),
+  ("exportgraph", SqlLineage.IO.Export.handleExportGraph),
+  ("exportfull", SqlLineage.IO.Export.handleExportFull),
+  ("rename", SqlLineage.IO.Rename.handleRename),
+  ("renamenames", SqlLineage.IO.Rename.handleNames),
+  ("renamerender", SqlLineage.IO.Rename.handleRoundTrip),
   ("ident", SqlLineage.IO.Names.handleIdent),
   ("namesBatch", SqlLineage.IO.Names.handleBatch),
   ("namesOf", SqlLineage.IO.Names.handleOf),
   ("namesSrc", SqlLineage.IO.Names.handleSrc),
   ("namesSites", SqlLineage.IO.Names.handleSites),
-  ("namesEq", SqlLineage.IO.Names.handleEq)
+  ("namesEq", SqlLineage.IO.Names.handleEq),
+  ("splitlex", SqlLineage.IO.Split.handleLex),
+  ("split", SqlLineage.IO.Split.handleSplit),
+  ("splitscript", SqlLineage.IO.Split.handleScript),
+  ("provhist", SqlLineage.IO.Provider.handleHist),
+  ("provthreads", SqlLineage.IO.Provider.handleThreads),
+  ("provsched", SqlLineage.IO.Provider.handleSched),
+  ("chain", SqlLineage.IO.Chain.handleChain),
+  ("chainpaths", SqlLineage.IO.Chain.handleChainPaths)
 ]
 
 def handleLine (line : String) : String :=
